@@ -653,8 +653,13 @@ def run_histories(chk, tools, hists, tags, stream_of):
 
 def run(chk):
     quick = chk.tier == "quick"
-    ok, log = chk.prove(["extract/Extract_C20.vo"])
+    ok, log = chk.prove(["extract/Extract_C20.vo"], extra_props=["Properties_C20_source.v"])
     chk.trusted += ["translator/gen_c20.py (factory arrays, guards, default arguments, enum spin) and translator/cexpr.py",
+                    "translator/gen_lattice.py + translator/cstmt.py (statement splitter, expression parser; statement-by-statement translation of "
+                    "Lattice::addTerm and the eleven LatticePresets functions into the W vocabulary of coq/theories/Lattice.v + LatticeShapes.v, shape "
+                    "recognition of TermStorage::addTerm / getTerms / getMaxTermOrder, Lattice::getSite / addSite / copy constructor): the tie between "
+                    "coq/gen/Gen_Lattice*.v and src/pomerol/Lattice.cpp, LatticePresets.cpp (Properties_C20_source.v); a function it does not "
+                    "recognise falls back to its snapshot and is then tied by the correspondence runs alone",
                     "extraction: ExtrOcamlBasic, ExtrOcamlNatInt (nat -> OCaml int; labels/orbitals/spins/orders are tiny); no Extract Constant of our own",
                     "ocaml/driver_c20.ml (parsing, printing, label numbering), harness/h_c20.cpp + harness/ed_common.h (call syntax), "
                     "this module (canonicalisation; look-up clauses G/T/K/S/N/D are evaluated here against the history)",
@@ -825,7 +830,7 @@ def replay(chk, path):
     if not lines:
         run(chk)
         return chk.finish()
-    chk.prove(["extract/Extract_C20.vo"])
+    chk.prove(["extract/Extract_C20.vo"], extra_props=["Properties_C20_source.v"])
     tools = Tools()
     h = [("replay", lines)]
     rc, bi, err = tools.impl(h, timeout=120)
